@@ -21,7 +21,10 @@
    Repaired behaviour modelled (fix commits in /repo): IQ decoding reads the
    lang attribute (D1); Err is serialised unless code, type, reason and text are
    all empty, the code attribute only when non-zero (D2); SMFailed.UnmarshalXML
-   reads the h attribute (d770553).
+   reads the h attribute (d770553) and the condition reset (f6); <gone/> is an error
+   condition (f3); only an error child in the iq's own namespace is the stanza error
+   (f9), only children in the stanza's own namespace are subject/body/... (C02-3);
+   SASLAuth.Value and Handshake.Value are character data (f11).
 
    Attributes of the tree model are un-prefixed local names (XmlLex refuses a
    prefixed name), i.e. exactly the unqualified attributes of the element: the
@@ -72,6 +75,37 @@ Definition s_mechanism : str := [109;101;99;104;97;110;105;115;109].  (* mechani
 Definition ns_component_accept : str := [106;97;98;98;101;114;58;99;111;109;112;111;110;101;110;116;58;97;99;99;101;112;116].  (* jabber:component:accept *)
 Definition s_handshake : str := [104;97;110;100;115;104;97;107;101].  (* handshake *)
 Definition s_star : str := [42].  (* * *)
+
+(* the conditions SMFailed.UnmarshalXML knows (stanza_errors.go; "reset" since the f6 repair) *)
+Definition failed_conditions : list str := [
+  [98;97;100;45;102;111;114;109;97;116]  (* bad-format *);
+  [98;97;100;45;110;97;109;101;115;112;97;99;101;45;112;114;101;102;105;120]  (* bad-namespace-prefix *);
+  [99;111;110;102;108;105;99;116]  (* conflict *);
+  [99;111;110;110;101;99;116;105;111;110;45;116;105;109;101;111;117;116]  (* connection-timeout *);
+  [104;111;115;116;45;103;111;110;101]  (* host-gone *);
+  [104;111;115;116;45;117;110;107;110;111;119;110]  (* host-unknown *);
+  [105;109;112;114;111;112;101;114;45;97;100;100;114;101;115;115;105;110;103]  (* improper-addressing *);
+  [105;110;116;101;114;110;97;108;45;115;101;114;118;101;114;45;101;114;114;111;114]  (* internal-server-error *);
+  [105;110;118;97;108;105;100;45;102;114;111;109]  (* invalid-from *);
+  [105;110;118;97;108;105;100;45;105;100]  (* invalid-id *);
+  [105;110;118;97;108;105;100;45;110;97;109;101;115;112;97;99;101]  (* invalid-namespace *);
+  [105;110;118;97;108;105;100;45;120;109;108]  (* invalid-xml *);
+  [110;111;116;45;97;117;116;104;111;114;105;122;101;100]  (* not-authorized *);
+  [110;111;116;45;119;101;108;108;45;102;111;114;109;101;100]  (* not-well-formed *);
+  [112;111;108;105;99;121;45;118;105;111;108;97;116;105;111;110]  (* policy-violation *);
+  [114;101;109;111;116;101;45;99;111;110;110;101;99;116;105;111;110;45;102;97;105;108;101;100]  (* remote-connection-failed *);
+  [114;101;115;101;116]  (* reset *);
+  [114;101;115;111;117;114;99;101;45;99;111;110;115;116;114;97;105;110;116]  (* resource-constraint *);
+  [114;101;115;116;114;105;99;116;101;100;45;120;109;108]  (* restricted-xml *);
+  [115;101;101;45;111;116;104;101;114;45;104;111;115;116]  (* see-other-host *);
+  [115;121;115;116;101;109;45;115;104;117;116;100;111;119;110]  (* system-shutdown *);
+  [117;110;100;101;102;105;110;101;100;45;99;111;110;100;105;116;105;111;110]  (* undefined-condition *);
+  [117;110;101;120;112;101;99;116;101;100;45;114;101;113;117;101;115;116]  (* unexpected-request *);
+  [117;110;115;117;112;112;111;114;116;101;100;45;101;110;99;111;100;105;110;103]  (* unsupported-encoding *);
+  [117;110;115;117;112;112;111;114;116;101;100;45;115;116;97;110;122;97;45;116;121;112;101]  (* unsupported-stanza-type *);
+  [117;110;115;117;112;112;111;114;116;101;100;45;118;101;114;115;105;111;110]  (* unsupported-version *);
+  [120;109;108;45;110;111;116;45;119;101;108;108;45;102;111;114;109;101;100]  (* xml-not-well-formed *)
+].
 
 (* ---- strconv: decimal numbers ---- *)
 Fixpoint udigits (fuel : nat) (n : N) (acc : str) : str :=
@@ -159,7 +193,7 @@ Inductive value : Type :=
 | VSMAnswer (h : N)
 | VSMResume (previd : str) (h : option N)
 | VSMResumed (previd : str) (h : option N)
-| VSMFailed (h : option N)
+| VSMFailed (h : option N) (cond : str)   (* cond: the condition child's name, [] = none *)
 | VSASLAuth (mechanism : str) (val : str)
 | VHandshake (val : str).
 
@@ -173,7 +207,7 @@ Definition vtype_of (v : value) : vtype :=
   | VMessage _ => TMessage | VPresence _ => TPresence | VIQ _ => TIQ | VNode _ => TNode
   | VSMEnable _ _ => TSMEnable | VSMEnabled _ _ _ _ => TSMEnabled | VSMRequest => TSMRequest
   | VSMAnswer _ => TSMAnswer | VSMResume _ _ => TSMResume | VSMResumed _ _ => TSMResumed
-  | VSMFailed _ => TSMFailed | VSASLAuth _ _ => TSASLAuth | VHandshake _ => THandshake
+  | VSMFailed _ _ => TSMFailed | VSASLAuth _ _ => TSASLAuth | VHandshake _ => THandshake
   end.
 
 Definition zero_err : err := mkErr 0 [] [] [].
@@ -257,7 +291,9 @@ Definition enc (v : value) : xtree :=
   | VSMAnswer h => XE ns_sm3 s_a [(s_h, utoa h)] []
   | VSMResume pid h => XE ns_sm3 s_resume (opt_attr s_previd pid ++ opt_uint_attr s_h h) []
   | VSMResumed pid h => XE ns_sm3 s_resumed (opt_attr s_previd pid ++ opt_uint_attr s_h h) []
-  | VSMFailed h => XE ns_sm3 s_failed (opt_uint_attr s_h h) []
+  | VSMFailed h c =>
+      XE ns_sm3 s_failed (opt_uint_attr s_h h)
+        (match c with [] => [] | _ => [XE ns_stanzas c [] []] end)
   | VSASLAuth mech val => XE ns_sasl_auth s_auth [(s_mechanism, mech)] (text_esc val)
   | VHandshake val => XE ns_component_accept s_handshake [] (text_esc val)
   end.
@@ -306,8 +342,12 @@ Definition err_child (e : err) (k : xtree) : err :=
   match k with
   | XT _ _ => e
   | XE ns l _ kids =>
-      if str_eqb ns ns_stanzas && (str_eqb l s_text || str_eqb l s_gone)
+      if str_eqb ns ns_stanzas && str_eqb l s_text
       then mkErr (e_code e) (e_type e) (e_reason e) (texts kids)
+      else if str_eqb ns ns_stanzas && str_eqb l s_gone
+      then (* a condition like the others; its character data is kept as the text
+              unless a text is already there *)
+           mkErr (e_code e) (e_type e) l (if isempty (e_text e) then texts kids else e_text e)
       else if str_eqb ns ns_stanzas || str_eqb ns ns_pubsub_errors
       then mkErr (e_code e) (e_type e) l (e_text e)
       else e
@@ -324,7 +364,7 @@ Definition dec_err (e0 : err) (t : xtree) : option err :=
   end.
 
 (* Message.UnmarshalXML: one step of the child loop *)
-Definition msg_child (reg : registry) (st : option message) (k : xtree) : option message :=
+Definition msg_child (reg : registry) (own : str) (st : option message) (k : xtree) : option message :=
   match st with
   | None => None
   | Some m =>
@@ -333,6 +373,7 @@ Definition msg_child (reg : registry) (st : option message) (k : xtree) : option
       | XE ns l _ kids =>
           if registered reg 1 ns l then
             Some (mkMessage (m_attrs m) (m_subject m) (m_body m) (m_thread m) (m_error m) (m_exts m ++ [k]))
+          else if negb (str_eqb ns own) then Some m   (* another namespace: not ours, skipped *)
           else if str_eqb l s_body then
             Some (mkMessage (m_attrs m) (m_subject m) (texts kids) (m_thread m) (m_error m) (m_exts m))
           else if str_eqb l s_thread then
@@ -350,11 +391,11 @@ Definition msg_child (reg : registry) (st : option message) (k : xtree) : option
 Definition dec_message (reg : registry) (t : xtree) : option message :=
   match t with
   | XT _ _ => None
-  | XE _ _ a kids =>
-      fold_left (msg_child reg) kids (Some (mkMessage (dec_attrs a) [] [] [] zero_err []))
+  | XE own _ a kids =>
+      fold_left (msg_child reg own) kids (Some (mkMessage (dec_attrs a) [] [] [] zero_err []))
   end.
 
-Definition pres_child (reg : registry) (st : option presence) (k : xtree) : option presence :=
+Definition pres_child (reg : registry) (own : str) (st : option presence) (k : xtree) : option presence :=
   match st with
   | None => None
   | Some p =>
@@ -363,6 +404,7 @@ Definition pres_child (reg : registry) (st : option presence) (k : xtree) : opti
       | XE ns l _ kids =>
           if registered reg 0 ns l then
             Some (mkPresence (p_attrs p) (p_show p) (p_status p) (p_priority p) (p_error p) (p_exts p ++ [k]))
+          else if negb (str_eqb ns own) then Some p   (* another namespace: not ours, skipped *)
           else if str_eqb l s_show then
             Some (mkPresence (p_attrs p) (texts kids) (p_status p) (p_priority p) (p_error p) (p_exts p))
           else if str_eqb l s_status then
@@ -383,19 +425,20 @@ Definition pres_child (reg : registry) (st : option presence) (k : xtree) : opti
 Definition dec_presence (reg : registry) (t : xtree) : option presence :=
   match t with
   | XT _ _ => None
-  | XE _ _ a kids =>
-      fold_left (pres_child reg) kids (Some (mkPresence (dec_attrs a) [] [] 0%Z zero_err []))
+  | XE own _ a kids =>
+      fold_left (pres_child reg own) kids (Some (mkPresence (dec_attrs a) [] [] 0%Z zero_err []))
   end.
 
-(* IQ.UnmarshalXML: error by local name first, then the registry, else a Node *)
-Definition iq_child (reg : registry) (st : option iq) (k : xtree) : option iq :=
+(* IQ.UnmarshalXML: the error child of the iq's own namespace first, then the registry,
+   else a Node *)
+Definition iq_child (reg : registry) (own : str) (st : option iq) (k : xtree) : option iq :=
   match st with
   | None => None
   | Some i =>
       match k with
       | XT _ _ => Some i
       | XE ns l _ _ =>
-          if str_eqb l s_error then
+          if str_eqb l s_error && str_eqb ns own then
             match dec_err zero_err k with
             | Some e => Some (mkIQ (i_attrs i) (i_payload i) (Some e) (i_any i))
             | None => None
@@ -410,7 +453,7 @@ Definition iq_child (reg : registry) (st : option iq) (k : xtree) : option iq :=
 Definition dec_iq (reg : registry) (t : xtree) : option iq :=
   match t with
   | XT _ _ => None
-  | XE _ _ a kids => fold_left (iq_child reg) kids (Some (mkIQ (dec_attrs a) None None None))
+  | XE own _ a kids => fold_left (iq_child reg own) kids (Some (mkIQ (dec_attrs a) None None None))
   end.
 
 (* tag-driven structs: the element name is checked, attributes by local name *)
@@ -425,12 +468,12 @@ Definition opt_uint (k : str) (a : list (str * str)) : option (option N) :=
   | None => Some None
   | Some v => match parse_uint_field 64 v with Some n => Some (Some n) | None => None end
   end.
-(* ,innerxml: the raw inner bytes; only plain text is in the modelled language *)
-Definition inner (kids : list xtree) : option str :=
-  match kids with
-  | [] => Some []
-  | [XT _ s] => if plain s then Some s else None
-  | _ => None
+
+(* the child loop of SMFailed.UnmarshalXML *)
+Definition failed_cond (c : str) (k : xtree) : str :=
+  match k with
+  | XE ns l _ _ => if str_eqb ns ns_stanzas && existsb (str_eqb l) failed_conditions then l else c
+  | XT _ _ => c
   end.
 
 (* the attribute loop of SMFailed.UnmarshalXML *)
@@ -506,24 +549,23 @@ Definition dec (reg : registry) (ty : vtype) (t : xtree) : option value :=
   | TSMFailed =>
       (* SMFailed.UnmarshalXML: no name check; every unqualified h attribute that
          ParseUint accepts is taken (the last one wins, one it rejects is ignored);
-         a child element is a stream-error condition (not modelled here: None) *)
+         a child in the stanza-error namespace with a known condition name is the
+         condition (the last one wins), every other child is skipped *)
       match t with
-      | XE _ _ a kids => if forallb is_text kids then Some (VSMFailed (failed_h a None)) else None
+      | XE _ _ a kids => Some (VSMFailed (failed_h a None) (fold_left failed_cond kids []))
       | XT _ _ => None
       end
   | TSASLAuth =>
       match named ns_sasl_auth s_auth t with
       | Some (a, kids) =>
-          match inner kids with
-          | Some v => Some (VSASLAuth (attr_str s_mechanism a []) v)
-          | None => None
-          end
+          (* ,chardata (f11 repair): the direct character data *)
+          Some (VSASLAuth (attr_str s_mechanism a []) (texts kids))
       | None => None
       end
   | THandshake =>
       match named ns_component_accept s_handshake t with
       | Some (_, kids) =>
-          match inner kids with Some v => Some (VHandshake v) | None => None end
+          Some (VHandshake (texts kids))
       | None => None
       end
   end.
@@ -533,12 +575,12 @@ Definition wf_attrs (a : attrs) : bool :=
   all_legal (a_type a) && all_legal (a_id a) && all_legal (a_from a)
   && all_legal (a_to a) && all_legal (a_lang a).
 
-(* Reason is an element name, not text; text and gone are read back as the text *)
+(* Reason is an element name, not text; an element named text is read back as the text *)
 Definition wf_err (e : err) : bool :=
   ((- 2 ^ 63 <=? e_code e) && (e_code e <? 2 ^ 63))%Z
   && all_legal (e_type e) && all_legal (e_text e)
   && (isempty (e_reason e)
-      || (name_ok (e_reason e) && negb (str_eqb (e_reason e) s_text) && negb (str_eqb (e_reason e) s_gone))).
+      || (name_ok (e_reason e) && negb (str_eqb (e_reason e) s_text))).
 
 (* namespace-explicit generic trees; [pns] the namespace of the parent *)
 Fixpoint wf_node (pns : str) (n : node) : bool :=
@@ -552,8 +594,8 @@ Fixpoint wf_node (pns : str) (n : node) : bool :=
 
 Definition root_registered (reg : registry) (kind : Z) (t : xtree) : bool :=
   match t with XE ns l _ _ => registered reg kind ns l | XT _ _ => false end.
-Definition root_local_is (l : str) (t : xtree) : bool :=
-  match t with XE _ l' _ _ => str_eqb l' l | XT _ _ => false end.
+Definition root_is (ns l : str) (t : xtree) : bool :=
+  match t with XE ns' l' _ _ => str_eqb l' l && str_eqb ns' ns | XT _ _ => false end.
 
 (* an extension: a stand-alone well-formed element the registry dispatches on *)
 Definition wf_ext (reg : registry) (kind : Z) (t : xtree) : bool :=
@@ -572,7 +614,7 @@ Definition wf_iq (reg : registry) (i : iq) : bool :=
   wf_attrs (i_attrs i)
   && match i_payload i with
      | None => true
-     | Some t => wf_ext reg 2 t && negb (root_local_is s_error t)
+     | Some t => wf_ext reg 2 t && negb (root_is [] s_error t)
      end
   && match i_error i with
      | None => true
@@ -581,7 +623,7 @@ Definition wf_iq (reg : registry) (i : iq) : bool :=
   && match i_any i with
      | None => true
      | Some (Node ns l _ _ _ as n) =>
-         wf_node [] n && negb (registered reg 2 ns l) && negb (str_eqb l s_error)
+         wf_node [] n && negb (registered reg 2 ns l) && negb (str_eqb l s_error && isempty ns)
      end.
 
 Definition fits64 (n : N) : bool := n <? 2 ^ 64.
@@ -599,9 +641,9 @@ Definition wf_value (reg : registry) (v : value) : bool :=
   | VSMAnswer h => fits64 h
   | VSMResume pid h => all_legal pid && opt_fits64 h
   | VSMResumed pid h => all_legal pid && opt_fits64 h
-  | VSMFailed h => opt_fits64 h
-  | VSASLAuth mech val => all_legal mech && plain val
-  | VHandshake val => plain val
+  | VSMFailed h c => opt_fits64 h && (isempty c || existsb (str_eqb c) failed_conditions)
+  | VSASLAuth mech val => all_legal mech && all_legal val
+  | VHandshake val => all_legal val
   end.
 
 (* the registry must not claim the un-namespaced core children *)
